@@ -440,3 +440,8 @@ func (r *refKey) VerifyPSS(h crypto.Hash, digest, sig []byte, salt int) error {
 	}
 	return pssVerify(digest, em, emBits, salt, h)
 }
+
+// VerifyPSSEM checks an encoded message directly (salt length detected).
+func (r *refKey) VerifyPSSEM(h crypto.Hash, digest, em []byte) error {
+	return pssVerify(digest, em, r.bits-1, 0, h)
+}
